@@ -65,14 +65,14 @@ func (d *DynamicAttr) Cost() int {
 }
 
 func (d *DynamicAttr) ResolveAttr(ctx context.Context, name string) (Object, error) {
-	if d.value != nil {
-		return d.value, nil
-	}
+	// The attribute is resolved anew on every access: what it resolves to
+	// depends on the context (os.stdout is the standard output of the OS
+	// that this evaluation was given), and the object lives in a module
+	// that outlasts the evaluation
 	attr, err := d.fn(ctx, name)
 	if err != nil {
 		return nil, err
 	}
-	d.value = attr
 	return attr, nil
 }
 
